@@ -16,6 +16,7 @@ Oracle: file trees.  After input staging every input directive's target (path
         missing source fails that task (final state FAILED) and no other.
 """
 import os
+import shutil
 
 from hypothesis import strategies as st
 
@@ -39,7 +40,10 @@ RULE = ('case = bulk of 1-3 tasks, each with 0-4 input and 0-4 output staging di
         'directory trees, missing sources, two-step chains via a shared sandbox), a task '
         'sandbox variant, an outcome DONE/FAILED/CANCELED and stage_on_error; non-trivial = '
         '>=2 directives differing in action or location schema, or a string form with an '
-        'operator, or a missing source next to a task without one; distinct = canonical case')
+        'operator, or a missing source next to a task without one; distinct = canonical case. '
+        'Second part: short-form strings built from path/URL pieces, blanks and the operators '
+        '> >> < << (half of them well-formed by construction) through expand_staging_directives; '
+        'non-trivial there = exactly one operator with two non-empty sides')
 ASSUMPTIONS = [
     'the four stagers are built hollow (Cls.__new__ + Client/AgentComponent.__init__ + real '
     '_initialize/initialize) on a hollow Session with in-memory queues/pubsub (msgpack round '
@@ -73,7 +77,6 @@ AGENT_SIDE  = ('copy', 'link', 'move')
 FORMS_STR   = ('bare', '>', '>>', '<', '<<')
 FORMS       = ('dict', 'dict_noact') + FORMS_STR
 DIRS        = ('da', 'db', 'dc')
-SCHEMAS     = ('client', 'task', 'pilot', 'session', 'resource', 'endpoint')
 
 # locations allowed per (direction, side): (sources, targets).  See NOT_REACHED
 # and DESIGN "Not demanded" for what is left out and why.
@@ -182,17 +185,25 @@ _BLANKS = ['', '', ' ', '  ', '\t']
 
 @st.composite
 def short_forms(draw):
-    if draw(st.booleans()):
+    mode = draw(st.sampled_from(['op', 'op', 'bare', 'raw']))
+    side = st.lists(st.sampled_from(_WORDS), min_size=1, max_size=3).map(''.join)
+    if mode == 'op':
         # well-formed: one side, one operator, other side (constructed)
-        side = st.lists(st.sampled_from(_WORDS), min_size=1, max_size=3).map(''.join)
         return {'raw': draw(st.sampled_from(_BLANKS)) + draw(side) + draw(st.sampled_from(_BLANKS))
                        + draw(st.sampled_from(['>', '>>', '<', '<<']))
                        + draw(st.sampled_from(_BLANKS)) + draw(side) + draw(st.sampled_from(_BLANKS))}
+    if mode == 'bare':
+        names = st.lists(st.sampled_from(['a', 'in.dat', 'da', 'db', 'x.y', 'out_1', '-']),
+                         min_size=1, max_size=3).map('/'.join)
+        return {'raw': draw(st.sampled_from(_BLANKS))
+                       + draw(st.sampled_from(['', '', '/', 'client:///', 'task:///', 'pilot:///',
+                                               'file:///']))
+                       + draw(names) + draw(st.sampled_from(_BLANKS))}
     return {'raw': ''.join(draw(st.lists(st.sampled_from(_PIECES), min_size=1, max_size=7)))}
 
 
 def parts(tier):
-    return [Part('staging_bulks', cases(), quick=300, thorough=2000),
+    return [Part('staging_bulks', cases(), quick=400, thorough=2000),
             Part('short_form_strings', short_forms(), quick=400, thorough=4000)]
 
 
@@ -394,21 +405,22 @@ def _run_short_form(case, res):
         if not left or not right:
             res.label('sf:empty_side')
             want = None
+        elif re.search(r'\s', left + right):
+            res.label('sf:inner_blank')         # whitespace in paths: outside the domain
+            want = None
         else:
             res.label('sf:one_op', 'sf:op%s' % ops[0])
             want = (left, right) if ops[0][0] == '>' else (right, left)
     else:
         src = raw.strip()
-        if not src or src.startswith('//') or src.endswith('/') or src.endswith('.') \
-                or '://' in src[1:] and \
-                not re.match(r'^(client|task|pilot|file):///[^:]*$', src):
+        m = re.match(r'^(?:(client|task|pilot|file):///)?([^:\s]*)$', src)
+        path = m.group(2) if m else ''
+        if not path or path.endswith('/') or path.endswith('.') or '//' in path \
+                or (m.group(1) and path.startswith('/')):
             res.label('sf:bare_odd')            # empty / directory-like / odd URL: not demanded
             want = None
         else:
             res.label('sf:bare')
-            path = src.split('://', 1)[1] if '://' in src else src
-            if path.startswith('localhost/'):
-                path = path[len('localhost'):]
             want = (src, os.path.basename(path))
     try:
         got = expand_staging_directives([raw])
@@ -439,10 +451,12 @@ def run_case(case):
         _run_short_form(case, res)
         return res
     root = boot.fresh_dir('c11.')
+    box  = []
     try:
-        _run(case, res, root)
+        _run(case, res, root, box)
     finally:
-        import shutil
+        for p in box:
+            p.close()
         shutil.rmtree(root, ignore_errors=True)
     return res
 
@@ -475,12 +489,12 @@ def _check_targets(res, clause, exps, label):
             res.fail('%s_move_source_remains' % clause, '%s: %s still exists' % (where, e['src']))
 
 
-def _run(case, res, root):
+def _run(case, res, root, box):
 
-    p   = None
     sid = 'rp.session.verif.0000'
     lay = Layout(root, sid)
     p   = pipe.Pipe(lay.client, lay.remote)
+    box.append(p)
     assert p.sess.uid == sid
 
     # ---- descriptions
